@@ -350,6 +350,10 @@ func (s *ScriptCore) exchange(input arrow.RecordBatch, out *vgirpc.OutputCollect
 			call.Outcome = "err"
 		}
 	}()
+	if input != nil && !input.Schema().Equal(scriptValueSchema) {
+		// the handler insists on its declared input type: an input the transport did not cast
+		return &vgirpc.RpcError{Type: "TypeError", Message: "fail-77"}
+	}
 	ticks, perr := parseScriptProg(s.Prog)
 	if perr != nil {
 		return perr
